@@ -485,7 +485,7 @@ func genEnum(maxLen int, sample int, dfs []string) {
 	}
 }
 
-var dfChoices = []string{"", "", "d", "dflt", `my "f`, "été", ""}
+var dfChoices = []string{"", "", "d", "dflt", `my "f`, "été", "", "", "title,body", "a b", "f.g", "x,", "D"}
 
 func genMain(args []string) {
 	fs := flag.NewFlagSet("gen", flag.ExitOnError)
@@ -569,7 +569,12 @@ func genRand(n int) {
 			}
 			tag = "src=randbroken"
 		}
-		emitQ(join(words, rng.Intn(3)), pick(dfChoices), tag)
+		q := join(words, rng.Intn(3))
+		if rng.Intn(25) == 0 { // a dangling escape at the very end of the input, after whatever kind of word comes last
+			q += `\`
+			tag = "src=randbroken"
+		}
+		emitQ(q, pick(dfChoices), tag)
 	}
 }
 
@@ -724,6 +729,29 @@ func genDField(n int) {
 			q = join(t.words(func() bool { return rng.Intn(3) == 0 }), rng.Intn(3))
 			if rng.Intn(2) == 0 {
 				name = relatedName(t) // a name close to one of the query's own fields, or one with punctuation
+			}
+		}
+		if rng.Intn(8) == 0 {
+			// a value group mixing bare elements with elements under a field close to the default field
+			base := pick([]string{"tag", "Kind", "été", "a_1"})
+			name = pick([]string{strings.ToUpper(base), strings.Title(base), base + "x", swapCase(base), "zz"})
+			if name == base {
+				name = base + "_"
+			}
+			k := 2 + rng.Intn(3)
+			el := []string{}
+			for j := 0; j < k; j++ {
+				v := pick([]string{"x", "y", "5", `"q r"`, "w*"})
+				switch rng.Intn(3) {
+				case 0:
+					el = append(el, base+":"+v)
+				default:
+					el = append(el, v)
+				}
+			}
+			q = pick([]string{"k", base}) + ":(" + strings.Join(el, " OR ") + ")"
+			if rng.Intn(2) == 0 {
+				q += " AND " + pick([]string{"z", base + ":z"})
 			}
 		}
 		emitQ(q, "", fmt.Sprintf("rel=C11;g=%d;role=a", g))
